@@ -130,7 +130,7 @@ def build_problem(case: dict[str, Any]):
     ds = DesignSpace()
     ds.add_variable("x", size=2, lower_bound=-10.0, upper_bound=10.0, value=0.0)
     pb = OptimizationProblem(ds)
-    pb.objective = MDOFunction(lambda x: np.zeros(case["obj_dim"]), "f")
+    pb.objective = MDOFunction(lambda x: np.zeros(case["obj_dim"]), "f", dim=case["obj_dim"])
     if not case["minimize"]:
         # the objective becomes "-f"; we record under the standardized name below
         pb.minimize_objective = False
@@ -414,6 +414,33 @@ def pareto_oracle(objs, feas, mask: str) -> str | None:
     return None
 
 
+def pareto_front_impl(case):
+    """ParetoFront.from_optimization_problem on a multi-objective history: reported (x, f) optima."""
+    from gemseo.algos.pareto.pareto_front import ParetoFront
+
+    pb, _ = build_problem(case)
+    pf = ParetoFront.from_optimization_problem(pb)
+    return [find_index(case, x) for x in pf.x_optima], [[F(float(t)) for t in row] for row in pf.f_optima]
+
+
+def mo_rows(case):
+    """Objective vectors and feasibility flags of a multi-objective history (for the model)."""
+    teq, tin = Fraction(case["tol_eq"]), Fraction(case["tol_in"])
+    objs, feas = [], []
+    for e in case["hist"]:
+        v = e["outs"].get("f")
+        ok = v is not None and v != "nan"
+        for name, ty, _ in case["cstrs"]:
+            c = e["outs"].get(name)
+            if c is None or c == "nan":
+                ok = False
+            else:
+                ok = ok and all((abs(Fraction(t)) <= teq) if ty == "e" else (Fraction(t) <= tin) for t in c)
+        objs.append([Fraction(t) for t in v] if v not in (None, "nan") else [Fraction(0)] * case["obj_dim"])
+        feas.append(ok)
+    return objs, feas
+
+
 # --------------------------------------------------------------------------- run
 
 
@@ -592,6 +619,50 @@ def run(ctx) -> Result:
                            "cstrs": [["g0", "i", 1]], "hist": hist})
         check_cases(res, ex, True)
         res.count("exhaustive-small", len(ex))
+    # multi-objective histories through ParetoFront.from_optimization_problem
+    mo_cases, mo_lines = [], []
+    for _ in range(n // 5):
+        c = gen_case(rng, in_scope=True)
+        if c["obj_dim"] < 2 or len(c["hist"]) < 1 or any(e["outs"].get("f") == "nan" for e in c["hist"]):
+            continue
+        c["minimize"], c["standardized"] = True, False
+        objs, feas = mo_rows(c)
+        if not any(feas):
+            continue
+        mo_cases.append((c, objs, feas))
+        mo_lines.append("pareto " + ";".join(rats(r) for r in objs) + " " + "".join("1" if b else "0" for b in feas))
+    mo_model = common.run_lean_driver(PID, mo_lines)
+    for (c, objs, feas), line, m in zip(mo_cases, mo_lines, mo_model):
+        res.evaluations += 1
+        res.count("pareto-front")
+        if len(objs) >= 2:
+            res.nontrivial("mo:" + line)
+        if "1" not in m:
+            res.count("pareto-front-empty(probe)")
+            continue  # no Pareto point: ParetoFront raises on an empty front (error branch, out of scope)
+        try:
+            idxs, fopt = pareto_front_impl(c)
+        except Exception as e:  # noqa: BLE001
+            res.violate("oracle", "pareto-front-raises", f"ParetoFront.from_optimization_problem raised {e!r}", {"case": c})
+            continue
+        mask = "".join("1" if str(i) in idxs else "0" for i in range(len(objs)))
+        msg = None
+        if "?" in idxs or "_" in idxs:
+            msg = "a reported Pareto point is not a recorded point"
+        else:
+            msg = pareto_oracle(objs, feas, mask)
+            for i, row in zip(idxs, fopt):
+                if msg is None and row != objs[int(i)]:
+                    msg = f"objective reported for Pareto point {i} is not the recorded one"
+        if msg:
+            res.violate("oracle", "pareto-front-dominated", msg, {"case": c, "reported": idxs})
+        if mask != m:
+            res.disagreements += 1
+            if not msg:
+                res.violate("correspondence", "pareto-front-model-vs-impl", "ParetoFront optima differ from the model mask",
+                            {"case": c, "protocol_line": line, "impl": mask, "model": m, "correspondence": "Driver/C04.lean `pareto`"})
+        else:
+            res.traces_validated += 1
     # pareto
     lines, cases = [], []
     for _ in range(n // 3):
